@@ -1182,9 +1182,12 @@ CS104_Connection_sendStartDT(CS104_Connection self)
     Semaphore_wait(self->conStateLock);
 #endif /* (CONFIG_USE_SEMAPHORES == 1) */
 
-    self->conState = STATE_WAITING_FOR_STARTDT_CON;
+    /* not connected (never connected, closed, connect failed): there is no socket to write to */
+    if (self->running) {
+        self->conState = STATE_WAITING_FOR_STARTDT_CON;
 
-    writeToSocket(self, STARTDT_ACT_MSG, STARTDT_ACT_MSG_SIZE);
+        writeToSocket(self, STARTDT_ACT_MSG, STARTDT_ACT_MSG_SIZE);
+    }
 
 #if (CONFIG_USE_SEMAPHORES == 1)
     Semaphore_post(self->conStateLock);
@@ -1205,11 +1208,14 @@ CS104_Connection_sendStopDT(CS104_Connection self)
     Semaphore_wait(self->conStateLock);
 #endif /* (CONFIG_USE_SEMAPHORES == 1) */
 
-    confirmOutstandingMessages(self);
+    /* not connected (never connected, closed, connect failed): there is no socket to write to */
+    if (self->running) {
+        confirmOutstandingMessages(self);
 
-    self->conState = STATE_WAITING_FOR_STOPDT_CON;
+        self->conState = STATE_WAITING_FOR_STOPDT_CON;
 
-    writeToSocket(self, STOPDT_ACT_MSG, STOPDT_ACT_MSG_SIZE);
+        writeToSocket(self, STOPDT_ACT_MSG, STOPDT_ACT_MSG_SIZE);
+    }
 
 #if (CONFIG_USE_SEMAPHORES == 1)
     Semaphore_post(self->conStateLock);
